@@ -169,6 +169,28 @@ def slot_level(ctx):
             ctx.diverge(f'{kind}_{typ} `{line}`: model `{got}` vs implementation `{want}`', {'slot': f'{kind}_{typ}', 'ops': ops})
 
 
+def slice_op(rng, g, w):
+    """`del c[a:b]` / `c[a:b] = [...]` on a list-like collection (slices are a list's business; sets refuse them)"""
+    cands = [(x, f) for f in w.mm.feats if f.many and not f.unique for x in g.objs_with(f) if len(w.slot(w.objs[x], f)) > 0]
+    if not cands:
+        return None
+    x, f = rng.choice(cands)
+    n = len(w.slot(w.objs[x], f))
+    a = rng.randint(0, n)
+    b = rng.randint(a, min(n, a + 3))
+    if rng.random() < .5:
+        return f'delslice {x} {f.fid} {a} {b}'
+    vals = []
+    for _ in range(rng.randint(0, 3)):
+        v = g.value_for(f, x, True)
+        if v is None or v[0] == 'n':
+            break
+        vals.append(v[0])
+    if f.ref and len(set(vals)) != len(vals):
+        return None
+    return f'setslice {x} {f.fid} {a} {b} ' + ' '.join(vals)
+
+
 def history_level(ctx, base=0, count=None, nops=None):
     n = count or (400 if ctx.quick() else 6000)
     nops = nops or (25 if ctx.quick() else 40)
@@ -184,6 +206,8 @@ def history_level(ctx, base=0, count=None, nops=None):
         lines = []
         for step in range(nops):
             line = g.next_op()
+            if step % 5 == 4:
+                line = slice_op(rng, g, w) or line
             lines.append(line)
             del seen_by_obj[:]
             for k in seen_by_res:
